@@ -187,8 +187,11 @@ func DecodeWTF8Rune(s string) (rune, int) {
 		return utf8.RuneError, 1
 	}
 
+	// A truncated sequence is invalid: consume one byte, like "utf8.DecodeRuneInString"
+	// does. Returning a width of 0 here makes callers that advance by the returned
+	// width (e.g. "QuoteForJSON") loop forever on input that ends mid-sequence.
 	if n < sz {
-		return utf8.RuneError, 0
+		return utf8.RuneError, 1
 	}
 
 	s1 := s[1]
